@@ -219,6 +219,19 @@ CHECKS = {
              "enable_groups are assumed not to interact with cached tables.",
         technique="TLA+ model of ParsingState.sub_context (PState.tla) model-checked with TLC; every chain replayed",
         ref="DESIGN.md §5 C17"),
+    'C18': dict(
+        text="NodeSplit.tla transcribes the scan machines of split_at_chars, split_at_node and parse_keyval_content; TLC "
+             "checks the clauses the property states on every abstract list up to the bound: parts joined with the "
+             "separator reproduce the source, every returned node carries the source text at its position, opaque children "
+             "and comments are never split, keep_empty only drops empty parts, at most max_split splits, node-predicate "
+             "splitting is an order-preserving partition, key-value parsing agrees with splitting at commas and the first "
+             "equals sign with each repeated-key policy (the as_implemented variant is a control). Every case is replayed "
+             "on real node lists (parsed from the rendered source, None placeholders inserted) with string, regex and "
+             "callable separators; parts, texts, positions and dictionaries must be equal.",
+        note="Bounded: lists <=3/4 items over 10-16 character words (separators in every position), opaque child, comment, "
+             "None; 4 separator kinds x max_split {None,0,1,2} x keep_empty x skip_none; 4 node predicates; 4 key policies.",
+        technique="TLA+ scan-machine spec (NodeSplit.tla) model-checked with TLC; exact replay into the real node lists",
+        ref="DESIGN.md §5 C18"),
     'C19': dict(
         text="Visit.tla is the acceptor: the callback log must be the post-order of the structure (obtained by an "
              "independent walk over public attributes), arguments before body, each vertex once, the right callback, each "
